@@ -98,6 +98,11 @@ def run(ctx):
                     ctx.violation(mode=mname, args=[a, b, c, d], observed=show(o),
                                   required="accepted" if ok else "ValueError/TypeError")
                 text = "err " + o[1]
+            # the same call with copy_timestamps=False (the sequence is taken over instead of copied): the same verdict
+            if isinstance(V[d], (list, tuple)):
+                o3 = outcome(lambda: Timing(mode, V[a], V[b], V[c], list(V[d]) if isinstance(V[d], list) else V[d], copy_timestamps=False))
+                if (o3[0] == "ok") != (o[0] == "ok") or (o3[0] == "err" and o3[1] != o[1]):
+                    ctx.violation(mode=mname, args=[a, b, c, d], copy_timestamps=False, observed=show(o3)[:160], required=show(o)[:160] + " (as with copy_timestamps=True)")
             reqs.append((f"timing ctor {mname} {a} {b} {c} {d}", text))
             ctx.case((mname, a, b, c, d), nontrivial=(a, b, c, d) != ("A", "A", "A", "A"))
             ctx.count("outcome", text.split()[0] if text.startswith("ok") else text.split()[1])
@@ -108,7 +113,25 @@ def run(ctx):
         def __init__(self, v): self.v = v
         def __eq__(self, o): return getattr(o, "value", o) == self.v
         def __hash__(self): return hash(self.v)
-    unknown = [0, 1, 2, 3, -1, 1.0, True, False, "NONE", "REGULAR", "IRREGULAR", "regular", None, [], (), SampleIntervalMode, Eq(1), Eq(2), b"\x01"]
+    import enum
+    from nitypes.waveform import DigitalState
+
+    class Lookalike(enum.Enum):
+        NONE = SampleIntervalMode.NONE.value
+        REGULAR = SampleIntervalMode.REGULAR.value
+        IRREGULAR = SampleIntervalMode.IRREGULAR.value
+
+    class LookalikeInt(enum.IntEnum):
+        NONE = SampleIntervalMode.NONE.value
+        REGULAR = SampleIntervalMode.REGULAR.value
+        IRREGULAR = SampleIntervalMode.IRREGULAR.value
+        LAST = -1
+
+    class HasValue:
+        def __init__(self, v): self.value = v
+    unknown = [0, 1, 2, 3, -1, 1.0, True, False, "NONE", "REGULAR", "IRREGULAR", "regular", None, [], (), SampleIntervalMode, Eq(1), Eq(2), b"\x01",
+               Lookalike.NONE, Lookalike.REGULAR, Lookalike.IRREGULAR, LookalikeInt.NONE, LookalikeInt.REGULAR, LookalikeInt.IRREGULAR, LookalikeInt.LAST,
+               DigitalState.FORCE_DOWN, DigitalState.FORCE_UP, DigitalState.FORCE_OFF, HasValue(0), HasValue(1), HasValue(2), HasValue(-1), HasValue(True)]
     combos = [("A", "A", "A", "A"), ("Dd", "Td", "A", "A"), ("A", "A", "Td", "A"), ("Db", "Tb", "Tb", "A"), ("A", "A", "A", "Sm"),
               ("A", "A", "A", "Se"), ("Dh", "A", "Th", "A")]
     for mode in unknown:
